@@ -50,6 +50,7 @@ func main() {
 	stride := flag.Int("stride", 1, "take every n-th mutant")
 	ops2 := flag.Bool("ops2", false, "also: swap adjacent call arguments, delete if statements without else, delete else branches")
 	ops2only := flag.Bool("ops2only", false, "only the ops2 operators")
+	ops3only := flag.Bool("ops3only", false, "only the sibling-identifier operator: one occurrence of min/lo/begin/left/valid/first/prev/i/…1 replaced by its sibling max/hi/end/right/invalid/last/next/j/…2 (and back) where the sibling name exists in the same function (or, for fields, file)")
 	recheck := flag.String("recheck", "", "results file of an earlier run: only re-run the checks on its survivors")
 	flag.Parse()
 	// private copy of the checker: the survey must not be disturbed by rebuilds of the binary
@@ -108,12 +109,40 @@ func main() {
 			if *ops2only && kind != "swap-args" && kind != "del-if" && kind != "del-else" {
 				return
 			}
+			if *ops3only && kind != "sibling" {
+				return
+			}
 			p, e := fset.Position(pos), fset.Position(end)
 			muts = append(muts, &mutant{File: base, Line: p.Line, Func: cur, Kind: kind, Old: string(src[p.Offset:e.Offset]), New: repl, off: p.Offset, n: e.Offset - p.Offset})
 		}
+		// names per function (identifiers) and per file (selected fields/methods), for the sibling operator
+		sels := map[string]bool{}
+		ast.Inspect(af, func(n ast.Node) bool {
+			if se, ok := n.(*ast.SelectorExpr); ok {
+				sels[se.Sel.Name] = true
+			}
+			return true
+		})
+		var curNames map[string]bool
+		isSel := map[*ast.Ident]bool{}
+		ast.Inspect(af, func(n ast.Node) bool {
+			if se, ok := n.(*ast.SelectorExpr); ok {
+				isSel[se.Sel] = true
+			}
+			return true
+		})
 		ast.Inspect(af, func(n ast.Node) bool {
 			switch x := n.(type) {
 			case *ast.FuncDecl:
+				curNames = map[string]bool{}
+				if *ops3only && x.Body != nil {
+					ast.Inspect(x, func(m ast.Node) bool {
+						if id, ok := m.(*ast.Ident); ok && !isSel[id] {
+							curNames[id.Name] = true
+						}
+						return true
+					})
+				}
 				cur = x.Name.Name
 				if x.Recv != nil && len(x.Recv.List) > 0 {
 					cur = exprStr(src, fset, x.Recv.List[0].Type) + "." + x.Name.Name
@@ -171,6 +200,13 @@ func main() {
 					}
 				}
 			case *ast.Ident:
+				if *ops3only && cur != "" {
+					for _, sib := range siblings(x.Name) {
+						if (isSel[x] && sels[sib]) || (!isSel[x] && curNames[sib]) {
+							add("sibling", x.Pos(), x.End(), sib)
+						}
+					}
+				}
 				if x.Name == "true" && x.Obj == nil {
 					add("bool", x.Pos(), x.End(), "false")
 				}
@@ -284,6 +320,41 @@ func main() {
 	}
 	close(jobs)
 	wg.Wait()
+}
+
+var sibPairs = [][2]string{{"min", "max"}, {"Min", "Max"}, {"lo", "hi"}, {"Lo", "Hi"}, {"begin", "end"}, {"Begin", "End"}, {"left", "right"}, {"valid", "invalid"}, {"first", "last"}, {"prev", "next"}, {"1", "2"}, {"2", "3"}, {"lOverflow", "rOverflow"}, {"pos", "neg"}, {"Pos", "Neg"}, {"src", "dst"}, {"old", "new"}}
+
+// siblings lists the names obtained from name by exchanging one sibling token (min↔max, …; i↔j, l↔r, a↔b, x↔y, u↔v
+// for one-letter names).
+func siblings(name string) []string {
+	var out []string
+	seen := map[string]bool{name: true}
+	addS := func(s string) {
+		if !seen[s] {
+			seen[s] = true
+			out = append(out, s)
+		}
+	}
+	for _, p := range sibPairs {
+		for _, d := range [][2]string{{p[0], p[1]}, {p[1], p[0]}} {
+			if i := strings.Index(name, d[0]); i >= 0 {
+				// "invalid" contains "valid": only whole-token exchanges at the start or after a lower→upper boundary
+				if d[0] == "valid" && i >= 2 && name[i-2:i] == "in" {
+					continue
+				}
+				addS(name[:i] + d[1] + name[i+len(d[0]):])
+			}
+		}
+	}
+	for _, p := range [][2]string{{"i", "j"}, {"l", "r"}, {"a", "b"}, {"x", "y"}, {"u", "v"}, {"n", "m"}, {"s", "t"}} {
+		if name == p[0] {
+			addS(p[1])
+		}
+		if name == p[1] {
+			addS(p[0])
+		}
+	}
+	return out
 }
 
 func exprStr(src []byte, fset *token.FileSet, e ast.Expr) string {
